@@ -95,9 +95,52 @@ def toposort(ctx, world):
             else:
                 ok_inc = False
         ok_inc = ok_inc and seen == {True, False}
+        # the same count written with the PRIOR count p = counts.get(n, 0): counts[n] = p + 1 on every visit, parents
+        # pushed exactly when p is 0 (falsy).  p is 0 on the first visit and >= 1 afterwards, so this is the form above.
+        prior_form = False
+        if not ok_inc:
+            lf0 = unseq(P1.next) if P1.next is not None else None
+            prior = None
+            if lf0 is not None and lf0.op == "store" and c1(lf0.obj) and lf0.val.op == "bin" and lf0.val.opname == "Add":
+                for a_, b_ in ((lf0.val.l, lf0.val.r), (lf0.val.r, lf0.val.l)):
+                    if b_.op == "const" and type(b_.value) is int and b_.value == 1 and a_.op == "call" and a_.fn.op == "attr" and a_.fn.name == "get" and c1(a_.fn.obj) and len(a_.args) == 2 and not a_.kw and a_.args[1].op == "const" and type(a_.args[1].value) is int and a_.args[1].value == 0 and (a_.args[0] is lf0.idx or same(a_.args[0], lf0.idx)):
+                        prior = a_
+            if prior is not None:
+                n1 = lf0.idx
+                ok_inc = True
+                prior_form = True
+                is_prior = lambda a, pr=prior: a is pr or same(a, pr) or (a.op == "cmp" and a.opname in ("Eq",) and ((a.l is pr or same(a.l, pr)) and a.r.op == "const" and a.r.value == 0))
+                # facts on the prior count: truthy (p != 0: seen before) / falsy or == 0 (first visit)
+                def prior_pol(c, pr=prior):
+                    for a, p_ in c.facts:
+                        if a is pr or same(a, pr):
+                            return p_  # truthy: seen before
+                        if a.op == "cmp" and a.opname == "Eq" and (((a.l is pr or same(a.l, pr)) and a.r.op == "const" and a.r.value == 0) or ((a.r is pr or same(a.r, pr)) and a.l.op == "const" and a.l.value == 0)):
+                            return not p_
+                        if a.op == "cmp" and a.opname == "Lt" and a.l.op == "const" and a.l.value == 0 and (a.r is pr or same(a.r, pr)):  # 0 < p
+                            return p_
+                    return None
+                is_in = None
         S1v = pop_of(n1)
         S1 = loop_of(P1.node, S1v.name) if S1v is not None else None
-        if S1 is not None and is_in is not None:
+        if S1 is not None and prior_form:
+            s1 = me(S1)
+            ok_first = True
+            seen = set()
+            for c in cases(S1.next):
+                pol = prior_pol(c)
+                seen.add(pol)
+                if pol is True:
+                    ok_first = ok_first and s1(c.leaf)
+                elif pol is False:
+                    lf = c.leaf
+                    ok_first = ok_first and lf.op == "grow" and lf.how == "extend" and s1(lf.obj) and parents_of(lf.val) is not None and (parents_of(lf.val) is n1 or same(parents_of(lf.val), n1))
+                else:
+                    ok_first = False
+            ok_first = ok_first and seen == {True, False}
+            cnd = S1.get("cond")
+            ok_first = ok_first and cnd is not None and atom(cnd)[1] and s1(atom(cnd)[0])
+        elif S1 is not None and is_in is not None:
             s1 = me(S1)
             ok_first = True
             seen = set()
